@@ -305,6 +305,7 @@ PROPS = {
     'src:Bits::is_arbitrary_int': ['C07'],
     'src:Exhaustive::matches': ['C10', 'C07'],
     'src:ArgumentParser::take_*': ['C09'],
+    'src:parse_field checks': ['C09', 'C03'],
 }
 
 N_UNIT = """
@@ -495,6 +496,420 @@ Print Assumptions src_agrees.
 """
 
 
+# ------------------------------------------------------------------------------------------------
+# the numeric checks of parse_field: from `let number_of_bits = ...` up to the bounds checks
+
+class NeedSplit(Exception):
+    def __init__(self, var):
+        self.var = var
+
+
+EFFECT_WORDS = ('return', 'try')
+EFFECT_MACROS = ('panic', 'assert', 'unreachable', 'todo', 'unimplemented', 'assert_eq', 'assert_ne')
+EFFECT_METHODS = ('unwrap', 'expect', 'unwrap_or_else')
+
+
+def effect_free(node):
+    """no early exit hidden inside: the value may be ignored if nothing decides on it"""
+    if isinstance(node, dict):
+        if node.get('e') in EFFECT_WORDS:
+            return False
+        if node.get('e') == 'macro' and node.get('name') in EFFECT_MACROS:
+            return False
+        if node.get('e') == 'mcall' and node.get('method') in EFFECT_METHODS:
+            return False
+        if node.get('e') == 'other' or node.get('s') == 'other':
+            return False
+        return all(effect_free(v) for v in node.values())
+    if isinstance(node, list):
+        return all(effect_free(v) for v in node)
+    return True
+
+
+OPAQUE = object()
+
+
+class RegionTr:
+    """statements with early `return Err(..)`, `if let Some(x) = opt`, assignment to an Option variable, unwrap() ->
+    a Gallina boolean (true = the end of the region was reached).  env: rust name -> ('N'|'bool', term) |
+    ('opt', term) | ('some', inner term) | ('ranges', term) | ('opaque',)"""
+
+    def __init__(self, env, consts):
+        self.env = dict(env)
+        self.consts = consts
+        self.fresh = 0
+
+    def name(self, base):
+        self.fresh += 1
+        return '%s_%d' % (re.sub(r'\W', '', base), self.fresh)
+
+    # ---- pure expressions --------------------------------------------------------------------
+    def num(self, e):
+        t, v = self.expr(e)
+        if t != 'N':
+            raise Untranslatable('expected a number: ' + json.dumps(e)[:60])
+        return v
+
+    def boolean(self, e):
+        t, v = self.expr(e)
+        if t != 'bool':
+            raise Untranslatable('expected a condition: ' + json.dumps(e)[:60])
+        return v
+
+    def closure(self, c, ptypes):
+        if c.get('e') != 'closure' or len(c['params']) != len(ptypes):
+            raise Untranslatable('closure')
+        saved = dict(self.env)
+        names = []
+        for p, t in zip(c['params'], ptypes):
+            if p['p'] != 'ident':
+                raise Untranslatable('closure parameter')
+            n = self.name(p['name'])
+            names.append(n)
+            self.env[p['name']] = (t, n)
+        try:
+            body = self.num(c['body'])
+        finally:
+            self.env = saved
+        return '(fun %s => %s)' % (' '.join(names), body)
+
+    def expr(self, e):
+        k = e.get('e')
+        if k == 'lit' and e['kind'] == 'int':
+            return 'N', e['value']
+        if k == 'lit' and e['kind'] == 'bool':
+            return 'bool', 'true' if e['value'] else 'false'
+        if k == 'path' and len(e['segs']) == 1:
+            n = e['segs'][0]
+            if n in self.env:
+                v = self.env[n]
+                if v[0] in ('N', 'bool'):
+                    return v
+                raise Untranslatable('use of %s (%s) as a value' % (n, v[0]))
+            if n in self.consts:
+                return 'N', str(self.consts[n])
+            raise Untranslatable('name ' + n)
+        if k == 'un' and e['op'] == '!':
+            return 'bool', '(negb %s)' % self.boolean(e['x'])
+        if k == 'un' and e['op'] == '*':
+            return self.expr(e['x'])
+        if k == 'bin':
+            op = e['op']
+            if op in ('&&', '||'):
+                return 'bool', '(%s %s %s)' % (self.boolean(e['l']), op, self.boolean(e['r']))
+            a, b = self.num(e['l']), self.num(e['r'])
+            if op in ('+', '*', '-'):
+                # usize arithmetic: `-` below zero panics in a debug build of the macro and wraps in a release build; the model
+                # (and this translation) use truncated subtraction, which agrees wherever the macro does not misbehave
+                return 'N', '(%s %s %s)' % (a, op, b)
+            cmp_ = {'==': '(%s =? %s)', '!=': '(negb (%s =? %s))', '<': '(%s <? %s)', '<=': '(%s <=? %s)'}
+            if op in cmp_:
+                return 'bool', cmp_[op] % (a, b)
+            if op == '>':
+                return 'bool', '(%s <? %s)' % (b, a)
+            if op == '>=':
+                return 'bool', '(%s <=? %s)' % (b, a)
+            raise Untranslatable('operator ' + op)
+        if k == 'field' and e['member'] in ('start', 'end'):
+            x = e['x']
+            if x.get('e') == 'path' and len(x['segs']) == 1 and self.env.get(x['segs'][0], ('',))[0] == 'range':
+                return 'N', '(%s %s)' % ('fst' if e['member'] == 'start' else 'snd', self.env[x['segs'][0]][1])
+            if x.get('e') == 'index' and x['x'].get('e') == 'path' and self.env.get(x['x']['segs'][0], ('',))[0] == 'ranges' \
+                    and x['i'].get('e') == 'lit' and x['i']['value'] == '0':
+                raise Untranslatable('ranges[0] outside a message')
+        if k == 'mcall':
+            m, r = e['method'], e['recv']
+            rn = r['segs'][0] if r.get('e') == 'path' and len(r['segs']) == 1 else None
+            rv = self.env.get(rn) if rn else None
+            if m == 'len' and rv and rv[0] == 'ranges' and not e['args']:
+                return 'N', '(N.of_nat (List.length %s))' % rv[1]
+            if m == 'is_empty' and rv and rv[0] == 'ranges' and not e['args']:
+                return 'bool', '(N.of_nat (List.length %s) =? 0)' % rv[1]
+            if m in ('is_none', 'is_some') and rv and rv[0] in ('opt', 'some') and not e['args']:
+                if rv[0] == 'some':
+                    return 'bool', 'false' if m == 'is_none' else 'true'
+                return 'bool', '(match %s with None => %s | Some _ => %s end)' % (
+                    rv[1], 'true' if m == 'is_none' else 'false', 'false' if m == 'is_none' else 'true')
+            if m == 'unwrap' and rv and rv[0] in ('opt', 'some') and not e['args']:
+                if rv[0] == 'some':
+                    return 'N', rv[1]
+                raise NeedSplit(rn)
+            if m == 'map_or' and len(e['args']) == 2 and r.get('e') == 'mcall' and r['method'] in ('last', 'first') and \
+                    r['recv'].get('e') == 'path' and self.env.get(r['recv']['segs'][0], ('',))[0] == 'ranges':
+                lst = self.env[r['recv']['segs'][0]][1]
+                return 'N', '(match %s with r_ :: _ => %s r_ | [] => %s end)' % (
+                    lst if r['method'] == 'first' else '(rev %s)' % lst, self.closure(e['args'][1], ['range']), self.num(e['args'][0]))
+            if m == 'fold' and len(e['args']) == 2 and r.get('e') == 'mcall' and r['method'] == 'iter' and \
+                    r['recv'].get('e') == 'path' and self.env.get(r['recv']['segs'][0], ('',))[0] == 'ranges':
+                init = self.num(e['args'][0])
+                return 'N', '(fold_left %s %s %s)' % (self.closure(e['args'][1], ['N', 'range']), self.env[r['recv']['segs'][0]][1], init)
+            if m == 'unwrap_or' and len(e['args']) == 1 and r.get('e') == 'mcall' and r['method'] == 'min' and \
+                    r['recv'].get('e') == 'mcall' and r['recv']['method'] == 'map' and len(r['recv']['args']) == 1:
+                it = r['recv']['recv']
+                if it.get('e') == 'mcall' and it['method'] == 'iter' and it['recv'].get('e') == 'path' and \
+                        self.env.get(it['recv']['segs'][0], ('',))[0] == 'ranges':
+                    return 'N', '(list_min_or (map %s %s) %s)' % (self.closure(r['recv']['args'][0], ['range']),
+                                                                  self.env[it['recv']['segs'][0]][1], self.num(e['args'][0]))
+            if m == 'unwrap_or' and len(e['args']) == 1 and r.get('e') == 'mcall' and r['method'] == 'max' and \
+                    r['recv'].get('e') == 'mcall' and r['recv']['method'] == 'map' and len(r['recv']['args']) == 1:
+                it = r['recv']['recv']
+                if it.get('e') == 'mcall' and it['method'] == 'iter' and it['recv'].get('e') == 'path' and \
+                        self.env.get(it['recv']['segs'][0], ('',))[0] == 'ranges':
+                    return 'N', '(list_max_or (map %s %s) %s)' % (self.closure(r['recv']['args'][0], ['range']),
+                                                                  self.env[it['recv']['segs'][0]][1], self.num(e['args'][0]))
+        raise Untranslatable('expression ' + json.dumps(e)[:90])
+
+    # ---- control ----------------------------------------------------------------------------
+    def panics(self, e):
+        """for an expression whose value nothing decides on (tokens): the condition under which evaluating it panics"""
+        kind = e.get('e')
+        if kind == 'if' and e['c'].get('e') != 'let' and e['f'] is not None:
+            a, b = self.panics_block(e['t']), self.panics(e['f'])
+            if a == b:
+                return a
+            return '(if %s then %s else %s)' % (self.boolean(e['c']), a, b)
+        if kind == 'block':
+            return self.panics_block(e['b'])
+        if kind == 'macro' and e['name'] == 'panic':
+            return 'true'
+        if kind == 'macro' and e['name'] == 'quote':
+            return 'false'
+        if effect_free(e):
+            return 'false'
+        raise Untranslatable('value with effects: ' + json.dumps(e)[:80])
+
+    def panics_block(self, b):
+        st = b['stmts']
+        if len(st) != 1 or st[0]['s'] != 'expr' or st[0].get('semi'):
+            raise Untranslatable('block in a token-valued expression')
+        return self.panics(st[0]['e'])
+
+    def value_k(self, e, k):
+        """evaluate e for its value with its control flow; k(value) where value = (type, term) or OPAQUE"""
+        kind = e.get('e')
+        if kind in ('if', 'block', 'macro'):
+            try:
+                pan = self.panics(e)
+            except Untranslatable:
+                pan = None
+            if pan is not None:
+                return k(OPAQUE) if pan == 'false' else 'false' if pan == 'true' else '(if %s then false else %s)' % (pan, k(OPAQUE))
+        if kind == 'if' and e['c'].get('e') != 'let':
+            c = self.boolean(e['c'])
+            saved = dict(self.env)
+            a = self.block_value_k(e['t'], k)
+            self.env = dict(saved)
+            if e['f'] is None:
+                raise Untranslatable('if without else as a value')
+            b = self.value_k(e['f'], k)
+            self.env = saved
+            return '(if %s then %s else %s)' % (c, a, b)
+        if kind == 'block':
+            return self.block_value_k(e['b'], k)
+        if kind == 'macro' and e['name'] == 'panic':
+            return 'false'
+        if kind == 'tuple':
+            vals = []
+
+            def step(i):
+                if i == len(e['elems']):
+                    return k(('tuple', list(vals)))
+                return self.value_k(e['elems'][i], lambda v: (vals.append(v), step(i + 1), vals.pop())[1])
+            return step(0)
+        if kind == 'match' and e['x'].get('e') == 'path' and self.env.get(e['x']['segs'][0], ('',))[0] in ('opt', 'some'):
+            return self.match_opt(e, lambda body: self.value_k(body, k))
+        try:
+            v = self.expr(e)
+        except Untranslatable:
+            if not effect_free(e):
+                raise
+            v = OPAQUE
+        return k(v)
+
+    def block_value_k(self, b, k):
+        st = b['stmts']
+        if not st or st[-1]['s'] != 'expr' or st[-1].get('semi'):
+            raise Untranslatable('block without a value')
+        return self.stmts(st[:-1], lambda: self.value_k(st[-1]['e'], k))
+
+    def match_opt(self, e, on_body):
+        var = e['x']['segs'][0]
+        t = self.env[var]
+        arms = {}
+        for a in e['arms']:
+            if a['guard'] is not None or a['attrs']:
+                raise Untranslatable('match arm with guard')
+            p = a['pat']
+            if (p['p'] == 'ident' and p['name'] == 'None') or (p['p'] == 'path' and p['segs'] == ['None']):
+                arms['None'] = (None, a['body'])
+            elif p['p'] == 'tuple_struct' and p['path'] == ['Some'] and len(p['elems']) == 1 and p['elems'][0]['p'] == 'ident':
+                arms['Some'] = (p['elems'][0]['name'], a['body'])
+            else:
+                raise Untranslatable('pattern on an Option')
+        if set(arms) != {'None', 'Some'}:
+            raise Untranslatable('match on an Option needs Some and None')
+        saved = dict(self.env)
+        if t[0] == 'some':
+            self.env[arms['Some'][0]] = ('N', t[1])
+            r = on_body(arms['Some'][1])
+            self.env = saved
+            return r
+        inner = self.name(arms['Some'][0])
+        self.env[arms['Some'][0]] = ('N', inner)
+        s = on_body(arms['Some'][1])
+        self.env = dict(saved)
+        n = on_body(arms['None'][1])
+        self.env = saved
+        return '(match %s with Some %s => %s | None => %s end)' % (t[1], inner, s, n)
+
+    def stmts(self, st, k):
+        """translate the statements then continue with k() (a thunk producing the rest, evaluated in the then-current env)"""
+        if not st:
+            return k()
+        s, rest = st[0], st[1:]
+        try:
+            return self.stmt(s, lambda: self.stmts(rest, k))
+        except NeedSplit as ns:
+            t = self.env[ns.var]
+            inner = self.name(ns.var)
+            saved = dict(self.env)
+            self.env[ns.var] = ('some', inner)
+            body = self.stmts(st, k)
+            self.env = saved
+            # unwrap() of None: the macro panics, the declaration is rejected
+            return '(match %s with Some %s => %s | None => false end)' % (t[1], inner, body)
+
+    def stmt(self, s, k):
+        if s['s'] == 'let':
+            def bind(v):
+                saved = dict(self.env)
+                if v is OPAQUE:
+                    self.env[s['name']] = ('opaque',)
+                    r = k()
+                else:
+                    n = self.name(s['name'])
+                    self.env[s['name']] = (v[0], n)
+                    r = '(let %s := %s in %s)' % (n, v[1], k())
+                self.env = saved
+                return r
+            return self.value_k(s['init'], bind)
+        if s['s'] == 'letpat' and s['pat']['p'] == 'tuple' and all(p['p'] == 'ident' for p in s['pat']['elems']):
+            names = [p['name'] for p in s['pat']['elems']]
+
+            def bind(v):
+                if v is OPAQUE or v[0] != 'tuple' or len(v[1]) != len(names):
+                    raise Untranslatable('tuple binding')
+                saved = dict(self.env)
+                lets = []
+                for n, x in zip(names, v[1]):
+                    if x is OPAQUE:
+                        self.env[n] = ('opaque',)
+                    else:
+                        c = self.name(n)
+                        lets.append((c, x[1]))
+                        self.env[n] = (x[0], c)
+                r = k()
+                for c, x in reversed(lets):
+                    r = '(let %s := %s in %s)' % (c, x, r)
+                self.env = saved
+                return r
+            return self.value_k(s['init'], bind)
+        if s['s'] == 'expr':
+            e = s['e']
+            kind = e.get('e')
+            if kind == 'return':
+                x = e['x']
+                if x and x.get('e') == 'call' and x['f'].get('segs') == ['Err']:
+                    return 'false'
+                raise Untranslatable('return of something other than Err')
+            if kind == 'try' and e['x'].get('e') == 'call' and e['x']['f'].get('segs') == ['Err']:
+                return 'false'
+            if kind == 'macro' and e['name'] == 'panic':
+                return 'false'
+            if kind == 'macro' and e['name'] == 'assert' and e.get('args') and len(e['args']) == 1:
+                return '(if %s then %s else false)' % (self.boolean(e['args'][0]), k())
+            if kind == 'assign' and e['l'].get('e') == 'path' and self.env.get(e['l']['segs'][0], ('',))[0] in ('opt', 'some'):
+                var = e['l']['segs'][0]
+                r = e['r']
+                saved = self.env[var]
+                if r.get('e') == 'call' and r['f'].get('segs') == ['Some'] and len(r['args']) == 1:
+                    self.env[var] = ('some', self.num(r['args'][0]))
+                elif r.get('e') == 'path' and r['segs'] == ['None']:
+                    self.env[var] = ('opt', 'None')
+                else:
+                    raise Untranslatable('assignment to ' + var)
+                out = k()
+                self.env[var] = saved
+                return out
+            if kind == 'if':
+                c = e['c']
+                if c.get('e') == 'let':
+                    p = c['pat']
+                    if p['p'] == 'tuple_struct' and p['path'] == ['Some'] and len(p['elems']) == 1 and p['elems'][0]['p'] == 'ident' \
+                            and c['x'].get('e') == 'path' and self.env.get(c['x']['segs'][0], ('',))[0] in ('opt', 'some'):
+                        t = self.env[c['x']['segs'][0]]
+                        bound = p['elems'][0]['name']
+                        saved = dict(self.env)
+                        inner = t[1] if t[0] == 'some' else self.name(bound)
+                        self.env[bound] = ('N', inner)
+                        a = self.stmts(e['t']['stmts'], k)
+                        self.env = dict(saved)
+                        if t[0] == 'some':
+                            self.env = saved
+                            return a
+                        b = self.else_branch(e['f'], k)
+                        self.env = saved
+                        return '(match %s with Some %s => %s | None => %s end)' % (t[1], inner, a, b)
+                    raise Untranslatable('if let')
+                cond = self.boolean(c)
+                saved = dict(self.env)
+                a = self.stmts(e['t']['stmts'], k)
+                self.env = dict(saved)
+                b = self.else_branch(e['f'], k)
+                self.env = saved
+                return '(if %s then %s else %s)' % (cond, a, b)
+            if kind == 'block':
+                return self.stmts(e['b']['stmts'], k)
+            if kind == 'match' and e['x'].get('e') == 'path' and self.env.get(e['x']['segs'][0], ('',))[0] in ('opt', 'some'):
+                return self.match_opt(e, lambda body: self.stmt({'s': 'expr', 'e': body, 'semi': True}, k))
+        raise Untranslatable('statement ' + json.dumps(s)[:90])
+
+    def else_branch(self, f, k):
+        if f is None:
+            return k()
+        if f.get('e') == 'block':
+            return self.stmts(f['b']['stmts'], k)
+        if f.get('e') == 'if':
+            return self.stmt({'s': 'expr', 'e': f, 'semi': False}, k)
+        raise Untranslatable('else branch')
+
+
+REGION_UNIT = """From BB Require Import Parse ParseRegion.
+Definition first_diff := Eval vm_compute in region_first_diff src_region.
+Print first_diff.
+Theorem src_agrees : forall W rs sz count stride, src_region W rs sz count stride = region_checks W rs sz count stride.
+Proof. region_auto src_region. Qed.
+Print Assumptions src_agrees.
+"""
+
+
+def region_of(parse_field):
+    """the statements of parse_field between `let number_of_bits` and the first statement after the bounds checks"""
+    st = parse_field['body']['stmts']
+    start = [i for i, s in enumerate(st) if s.get('s') == 'let' and s.get('name') == 'number_of_bits']
+    if len(start) != 1:
+        raise Untranslatable('`let number_of_bits` not found')
+    end = None
+    for i in range(start[0] + 1, len(st)):
+        txt = json.dumps(st[i])
+        if 'parse_enumeration' in txt or 'use_regular_int' in txt or 'FieldDefinition' in txt:
+            end = i
+            break
+    if end is None:
+        raise Untranslatable('end of the checks not found')
+    return st[start[0]:end]
+
+
 def generate(xl_by_file):
     """-> list of units {label, desc, props, definition, coq (source text) | error}; never raises"""
     mod = xl_by_file.get('bitfield/mod.rs') or {}
@@ -587,6 +1002,17 @@ def generate(xl_by_file):
             tr = ApTr(params[0]['name'], kind)
             defs += 'Definition src_%s (self : ap) (%s : %s) : option ap := %s.\n' % (name, params[0]['name'], argty, tr.function(f))
         return HEADER + 'From BB Require Import Tokens.\n' + defs + AP_UNIT, defs
+    def b_region():
+        f = find_fn(pa['items'], 'parse_field')
+        st = region_of(f)
+        tr = RegionTr({'ranges': ('ranges', 'rs'), 'field_type_size_from_data_type': ('opt', 'sz'), 'indexed_count': ('opt', 'count'),
+                       'indexed_stride': ('opt', 'stride'), 'base_data_size': ('N', 'W')}, dict(consts_of(mod.get('items', [])), BITCOUNT_BOOL=0))
+        body = tr.stmts(st, lambda: 'true')
+        d = 'Definition src_region (W : N) (rs : list (N * N)) (sz count stride : option N) : bool :=\n  %s.\n' % body
+        return HEADER + 'From BB Require Import ParseRegion.\n' + d + REGION_UNIT, d
+    attempt('src:parse_field checks', 'the numeric checks of parse_field (type width against selected bits, bool, stride, array and field '
+            'bounds, element count) = the model\'s region_checks, for every base width, range list, type size, count and stride', b_region)
+
     attempt('src:ArgumentParser::take_*', 'the three transition functions of the attribute-argument automaton (take_literal, take_punct, '
             'take_ident) = the model\'s (Tokens.v), every state and every token', b_ap)
     return units
@@ -662,6 +1088,27 @@ def probes_for(label, first_diff):
                     decl = decl.replace('bitenum(u1)', 'bitenum(u1, exhaustive = true)')
             out.append({'what': 'a bitenum over u%d is %s' % (n, 'valid, raw_value() is a u%d and 1 converts to B' % n if ok else 'rejected (1..=64 bits only)'),
                         'lib': hdr + decl + chk, 'expect_accept': ok})
+    elif label == 'src:parse_field checks':
+        # the grid point reported by Coq: (W, [(start, end); ..], sz, count, stride, model verdict)
+        m = re.search(r'Some \((\d+), \[(.*?)\], (None|Some \d+), (None|Some \d+), (None|Some \d+), (true|false)\)', first_diff or '')
+        if m:
+            W = int(m.group(1))
+            rs = [(int(a), int(b)) for a, b in re.findall(r'\((\d+), (\d+)\)', m.group(2))]
+            opt = lambda t: None if t == 'None' else int(t.split()[1])
+            sz, count, stride, verdict = opt(m.group(3)), opt(m.group(4)), opt(m.group(5)), m.group(6) == 'true'
+            if rs and sz is not None and (sz == 0 or 1 <= sz <= 128) and (count is not None or stride is None):
+                ty = 'bool' if sz == 0 else 'u%d' % sz
+                if count is not None:
+                    ty = '[%s; %d]' % (ty, count)
+                ent = ['%d..=%d' % (a, b - 1) for a, b in rs]
+                if len(rs) == 1 and rs[0][1] - rs[0][0] == 1 and sz == 0:
+                    attr = 'bit(%d, rw%s)' % (rs[0][0], ', stride = %d' % stride if stride is not None else '')
+                else:
+                    attr = 'bits(%s, rw%s)' % (ent[0] if len(rs) == 1 else '[' + ', '.join(ent) + ']',
+                                               ', stride = %d' % stride if stride is not None else '')
+                decl = '#[bitbybit::bitfield(u%d)]\npub struct P {\n    #[%s]\n    f: %s,\n}\n' % (W, attr, ty)
+                out.append({'what': 'the declaration `#[bitfield(u%d)] struct P { #[%s] f: %s }` is %s by the layout rules' % (
+                    W, attr, ty, 'valid' if verdict else 'rejected'), 'lib': hdr + decl, 'expect_accept': verdict})
     elif label == 'src:ArgumentParser::take_*':
         for attr, ty, ok in (('bits(0..=3, rw)', 'u4', True), ('bit(0, r)', 'bool', True), ('bit(1, w)', 'bool', True),
                              ('bit(2)', 'bool', True), ('bits(0..=3, rw, stride = 4)', '[u4; 2]', True),
